@@ -62,7 +62,7 @@ struct Obs {
     problems: Vec<(String, String)>,
 }
 
-pub const STATES: [&str; 5] = ["fresh", "issued", "alice-id-replaced", "parent-id-rolled", "alice-suspended"];
+pub const STATES: [&str; 6] = ["fresh", "issued", "alice-id-replaced", "parent-id-rolled", "alice-suspended", "repo-reinitialised"];
 
 pub fn build_state(name: &str) -> Result<(World, Ctx), String> {
     let w = World::build_ta_parent(WorldCfg::default()).map_err(|e| e.to_string())?;
@@ -144,6 +144,40 @@ pub fn build_state(name: &str) -> Result<(World, Ctx), String> {
                 .map_err(|e| e.to_string())?;
             ctx.suspended.push("alice");
             w.pump()?;
+        }
+        // the publication server is emptied, cleared and initialised again
+        // in the running instance (a new server identity key), and the
+        // publishers register again
+        "repo-reinitialised" => {
+            let rm = w.krill.repo_manager();
+            for p in rm.publishers().map_err(|e| e.to_string())? {
+                rm.remove_publisher(p.clone(), &w.actor, &w.krill).map_err(|e| format!("remove publisher {p}: {e}"))?;
+            }
+            w.pump()?;
+            rm.repository_clear().map_err(|e| format!("clear: {e}"))?;
+            let tb = w.config.testbed().ok_or("no testbed config")?.clone();
+            rm.init(tb.publication_server_uris(), &w.krill).map_err(|e| format!("init again: {e}"))?;
+            for (child, key) in [("alice", "A"), ("bobby", "B")] {
+                let preq = PublisherRequest::new(rpki::ca::publication::Base64::from_content(ctx.signer.id_cert(ctx.id[key]).to_captured().as_slice()), pub_h(child), None);
+                rm.create_publisher(preq, &w.actor).map_err(|e| format!("add publisher {child} again: {e}"))?;
+            }
+            let mut w = w;
+            for c in ["parent", "other"] {
+                let o = w.apply(&crate::ops::Op::AddPublisher { ca: c.into() });
+                if !o.ok {
+                    return Err(format!("publisher for {c} again: {:?}", o.err));
+                }
+                // everything the CA has is published again right away
+                w.krill.ca_manager().cas_repo_sync_single(&ca(c), 0, &w.slow).map_err(|e| format!("repository sync of {c}: {e}"))?;
+            }
+            w.pump()?;
+            for child in ["alice", "bobby"] {
+                let r = Req::Pub { key: ctx.registered[child].into(), path: child.into(), kind: "publish_own".into() };
+                let bytes = message(&ctx, &r)?;
+                send(&w, &r, bytes).map_err(|e| format!("publish again for {child}: {e}"))?;
+            }
+            w.pump()?;
+            return Ok((w, ctx));
         }
         other => return Err(format!("unknown state {other}")),
     }
